@@ -503,10 +503,10 @@ type vc12Side struct {
 	// messages to its pools.
 	cloner *dnsmsg.Cloner
 
-	mgr *agdcache.DefaultManager
-	strg   *filterstorage.Default
-	hp     [3]*hashprefix.Filter
-	errs   *vc12ErrColl
+	mgr  *agdcache.DefaultManager
+	strg *filterstorage.Default
+	hp   [3]*hashprefix.Filter
+	errs *vc12ErrColl
 }
 
 // vc12SideConf is what is drawn per case about the storages.
@@ -1042,12 +1042,42 @@ type vc12Item struct {
 	QT   uint16
 }
 
-// vc12DrawAnswers draws the answer section of an upstream response.
-func vc12DrawAnswers(t *rapid.T, owner string) (rrs []dns.RR) {
+// vc12Spell returns name in a drawn letter case: as it is, all upper, or mixed
+// with at least one upper-case letter.  Upstreams return owner names and
+// targets as the authoritative data or a 0x20-preserving forwarder spells
+// them; only the question name is lower-cased before the filters see it.
+func vc12Spell(t *rapid.T, name string) string {
+	b := []byte(name)
+	switch rapid.IntRange(0, 3).Draw(t, "spelling") {
+	case 0, 1:
+		return name
+	case 2:
+		return strings.ToUpper(name)
+	default:
+		first := true
+		for i := range b {
+			if b[i] < 'a' || b[i] > 'z' {
+				continue
+			}
+
+			if first || rapid.Bool().Draw(t, "up") {
+				b[i] -= 'a' - 'A'
+			}
+
+			first = false
+		}
+
+		return string(b)
+	}
+}
+
+// vc12DrawAnswers draws the answer section of an upstream response.  target
+// draws the target of a CNAME or alias record, as spelled.
+func vc12DrawAnswers(t *rapid.T, owner string, target func() string) (rrs []dns.RR) {
 	n := rapid.IntRange(1, 3).Draw(t, "nans")
 	for range n {
 		hdr := func(rt uint16) dns.RR_Header {
-			return dns.RR_Header{Name: owner, Rrtype: rt, Class: dns.ClassINET, Ttl: 60}
+			return dns.RR_Header{Name: vc12Spell(t, owner), Rrtype: rt, Class: dns.ClassINET, Ttl: 60}
 		}
 
 		v4 := func() netip.Addr {
@@ -1058,14 +1088,19 @@ func vc12DrawAnswers(t *rapid.T, owner string) (rrs []dns.RR) {
 			return netip.IPv4Unspecified()
 		}
 
-		switch rapid.IntRange(0, 5).Draw(t, "anskind") {
+		switch rapid.IntRange(0, 7).Draw(t, "anskind") {
+		case 6:
+			rrs = append(rrs, &dns.CNAME{Hdr: hdr(dns.TypeCNAME), Target: target()})
+		case 7:
+			// An alias-mode record; its target is a name of the upstream's too.
+			rrs = append(rrs, &dns.HTTPS{SVCB: dns.SVCB{Hdr: hdr(dns.TypeHTTPS), Priority: 0, Target: target()}})
 		case 0, 1:
 			rrs = append(rrs, &dns.A{Hdr: hdr(dns.TypeA), A: v4().AsSlice()})
 		case 2:
 			ip := netip.MustParseAddr(fmt.Sprintf("2001:db8::%d", rapid.IntRange(1, 3).Draw(t, "ip6")))
 			rrs = append(rrs, &dns.AAAA{Hdr: hdr(dns.TypeAAAA), AAAA: ip.AsSlice()})
 		case 3:
-			rrs = append(rrs, &dns.CNAME{Hdr: hdr(dns.TypeCNAME), Target: dns.Fqdn(rapid.SampledFrom(vc12Hosts).Draw(t, "target"))})
+			rrs = append(rrs, &dns.CNAME{Hdr: hdr(dns.TypeCNAME), Target: target()})
 		case 4:
 			hint := &dns.SVCBIPv4Hint{}
 			for range rapid.IntRange(1, 2).Draw(t, "nhint") {
